@@ -80,19 +80,39 @@ def _enc_value(v, enc, asz, bo):
     return (v % (1 << (8 * n))).to_bytes(n, bo)
 
 
-def build_eh_frame(rng, le, asz, address, names):
-    """one CIE ('zR' or 'zLR') and two FDEs with pointer encodings; returns (bytes, expectations)"""
+EH_AUGMENTATIONS = ['', 'z', 'zR', 'zL', 'zLR', 'zRL', 'zPR', 'zPLR', 'zRS', 'zSLR']
+
+
+def build_eh_frame(rng, le, asz, address, names, aug=None):
+    """one CIE with the augmentation string `aug` (the letters in string order decide the augmentation data; without
+    'z' neither the CIE nor its FDEs carry augmentation data, without 'R' addresses are absolute pointers, without 'L'
+    there is no LSDA pointer) and two FDEs; returns (bytes, expectations)"""
     from specs import cfi_spec as C
     from specs.dwarf_ops import _uleb, _sleb
     bo = 'little' if le else 'big'
-    fde_enc = rng.choice([0x00, 0x03, 0x0b, 0x1b, 0x10 | 0x0c, 0x04])
-    with_lsda = rng.random() < 0.7
+    if aug is None:
+        aug = rng.choice(EH_AUGMENTATIONS)
+    has_z = aug.startswith('z')
+    fde_enc = rng.choice([0x00, 0x03, 0x0b, 0x1b, 0x10 | 0x0c, 0x04, 0x02, 0x0a, 0x01, 0x09]) if 'R' in aug else 0x00
+    with_lsda = 'L' in aug
     lsda_enc = rng.choice([0x00, 0x03, 0x0b, 0x1b, 0x0a, 0x1a, 0x09, 0x19])
+    pers_enc = rng.choice([0x00, 0x03, 0x0b, 0x1b, 0x04, 0x0c, 0x02])
+    pers_val = rng.randrange(0x10, 0x7000)
     code_align, data_align = rng.choice([1, 4]), rng.choice([-8, -4, 4])
-    aug = b'zLR\x00' if with_lsda else b'zR\x00'
-    augdata = (bytes([lsda_enc]) if with_lsda else b'') + bytes([fde_enc])
-    body = (0).to_bytes(4, bo) + bytes([1]) + aug + _uleb(code_align) + _sleb(data_align) + bytes([16]) + \
-        _uleb(len(augdata)) + augdata
+    augdata, aug_expect = b'', {}
+    for ch in aug[1:]:
+        if ch == 'R':
+            augdata += bytes([fde_enc])
+            aug_expect['FDE_encoding'] = fde_enc
+        elif ch == 'L':
+            augdata += bytes([lsda_enc])
+            aug_expect['LSDA_encoding'] = lsda_enc
+        elif ch == 'P':
+            augdata += bytes([pers_enc]) + _enc_value(pers_val, pers_enc, asz, bo)
+            aug_expect['personality'] = (pers_enc, pers_val)
+    body = (0).to_bytes(4, bo) + bytes([1]) + aug.encode() + b'\x00' + _uleb(code_align) + _sleb(data_align) + bytes([16])
+    if has_z:
+        body += _uleb(len(augdata)) + augdata
     cie_names = [n for n in names if 'restore' not in n and 'advance' not in n and n != 'DW_CFA_set_loc'
                  and n not in ('DW_CFA_remember_state', 'DW_CFA_restore_state')]
     cie_instrs = []
@@ -101,11 +121,12 @@ def build_eh_frame(rng, le, asz, address, names):
         body += raw
         cie_instrs.append((op, args))
     section = len(body).to_bytes(4, bo) + body
-    expect = [dict(kind='CIE', offset=0, instrs=cie_instrs, code_align=code_align, data_align=data_align)]
+    expect = [dict(kind='CIE', offset=0, instrs=cie_instrs, code_align=code_align, data_align=data_align,
+                   aug=aug, aug_bytes=augdata if has_z else b'', aug_fields=aug_expect if has_z else {})]
     for _ in range(2):
         off = len(section)
         k, signed = ENC[fde_enc & 0x0f]
-        width = asz if k == 'ADDR' else k
+        width = asz if k == 'ADDR' else (4 if k in ('ULEB', 'SLEB') else k)
         field_off = off + 8
         pcrel = (fde_enc & 0xf0) == 0x10
         if pcrel:
@@ -135,7 +156,8 @@ def build_eh_frame(rng, le, asz, address, names):
                 lstored = lsda_target
             aug_payload = _enc_value(lstored, lsda_enc, asz, bo)
             lsda_expect = lsda_target
-        body += _uleb(len(aug_payload)) + aug_payload
+        if has_z:
+            body += _uleb(len(aug_payload)) + aug_payload
         instrs, depth = [], 0
         for _ in range(rng.randrange(0, 6)):
             allow = [n for n in names if (n != 'DW_CFA_restore_state' or depth > 0) and n != 'DW_CFA_set_loc']
@@ -146,7 +168,7 @@ def build_eh_frame(rng, le, asz, address, names):
             instrs.append((op, args))
         section += len(body).to_bytes(4, bo) + body
         expect.append(dict(kind='FDE', offset=off, instrs=instrs, initial_location=target, address_range=rlen, cie=0,
-                           lsda=lsda_expect, with_lsda=with_lsda))
+                           lsda=lsda_expect, with_lsda=with_lsda, aug_bytes=aug_payload if has_z else b''))
     section += (0).to_bytes(4, bo)
     expect.append(dict(kind='ZERO', offset=len(section) - 4))
     return section, expect
@@ -175,6 +197,19 @@ def compare(section, expect, le, asz, for_eh, address):
         if kind == 'CIE':
             if e['code_alignment_factor'] != x['code_align'] or e['data_alignment_factor'] != x['data_align']:
                 return 'CIE alignment factors %r' % ((e['code_alignment_factor'], e['data_alignment_factor']),)
+            if 'aug' in x:
+                if e['augmentation'] != x['aug'].encode():
+                    return 'CIE augmentation string %r, encoded %r' % (e['augmentation'], x['aug'])
+                if e.augmentation_bytes != x['aug_bytes']:
+                    return 'CIE augmentation data %r, encoded %r' % (e.augmentation_bytes, x['aug_bytes'])
+                for f, v in x['aug_fields'].items():
+                    g = e.augmentation_dict.get(f)
+                    g = (g.encoding, g.function) if f == 'personality' and g is not None else g
+                    if g != v:
+                        return 'CIE augmentation field %s = %r, encoded %r' % (f, g, v)
+                for f in ('FDE_encoding', 'LSDA_encoding', 'personality'):
+                    if f in e.augmentation_dict and f not in x['aug_fields']:
+                        return 'CIE augmentation field %s reported, not encoded (augmentation %r)' % (f, x['aug'])
             rows = C.interpret(x['instrs'], x['code_align'], x['data_align'], 0, None, True)
             order = C.reg_order(x['instrs'], [])
             cie_rows[x['offset']] = (rows, x, order)
@@ -184,8 +219,10 @@ def compare(section, expect, le, asz, for_eh, address):
             if e['initial_location'] != x['initial_location'] or e['address_range'] != x['address_range']:
                 return 'FDE at %d: initial_location/range %r, encoded %r' % (
                     e.offset, (e['initial_location'], e['address_range']), (x['initial_location'], x['address_range']))
-            if for_eh and x.get('with_lsda') and e.lsda_pointer != x['lsda']:
+            if for_eh and 'with_lsda' in x and e.lsda_pointer != x['lsda']:
                 return 'FDE at %d: LSDA pointer %r, encoded %r' % (e.offset, e.lsda_pointer, x['lsda'])
+            if for_eh and 'aug_bytes' in x and e.augmentation_bytes != x['aug_bytes']:
+                return 'FDE at %d: augmentation data %r, encoded %r' % (e.offset, e.augmentation_bytes, x['aug_bytes'])
             crow, cx, corder = cie_rows[x['cie']]
             rows = C.interpret(x['instrs'], cx['code_align'], cx['data_align'], x['initial_location'], crow, False)
             order = C.reg_order(x['instrs'], corder)
@@ -241,9 +278,12 @@ def cfi(tier, seed):
     def b_eh(cfg, allow):
         le, asz = cfg
         address = rng.choice([0x400000, 0x7f0000001000 if asz == 8 else 0x10000])
-        s, x = build_eh_frame(rng, le, asz, address, [n for n in allow if n != 'DW_CFA_set_loc'])
+        # the obligation's name selects the augmentation string ('pointer-encodings': any of them)
+        aug = allow[0][len('augmentation='):] if allow[0].startswith('augmentation=') else None
+        s, x = build_eh_frame(rng, le, asz, address, [n for n in allow if n.startswith('DW_CFA') and n != 'DW_CFA_set_loc'],
+                              aug=aug)
         return s, x, (le, asz, True, address)
-    run('eh_frame', b_eh, eh_cfgs, ['pointer-encodings'])
+    run('eh_frame', b_eh, eh_cfgs, ['pointer-encodings'] + ['augmentation=' + a for a in EH_AUGMENTATIONS])
     return dict(obligations=obs, assumptions=[
         'BOUNDED: sections are generated from the specification with seeded operands and sequences; every opcode x '
         'configuration is exercised but operand values are sampled',
